@@ -173,12 +173,16 @@ def observations(rec, m):
         impl_obs["would"] = rec["would"]
         if model_obs is not None:
             model_obs["would"] = m.get("would")
+    if "calls" in rec:      # the Database mutators / rmtree / copyfile the command really called, against the model's effects
+        impl_obs["calls"] = rec["calls"]
+        if model_obs is not None:
+            model_obs["calls"] = lib_db.model_calls(m.get("trace"))
     return impl_obs, model_obs
 
 
 def oracle_i(ctx, i, sub, rec, impl_obs, model_obs):
     if model_obs is not None and common.jdump(model_obs) != common.jdump(impl_obs):
-        which = [k for k in ("out", "loaded", "view", "db", "raw", "would", "extras")
+        which = [k for k in ("out", "loaded", "view", "db", "raw", "would", "extras", "calls")
                  if common.jdump(model_obs.get(k)) != common.jdump(impl_obs.get(k))]
         ctx.disagree("+".join(which), sub, impl_obs, model_obs, note="step %d %s" % (i, rec.get("detail", "")))
         return False
@@ -191,6 +195,7 @@ def check_case(ctx, case, steps, msteps):
     ref = Ref(dirs, lib_db.TFILES)
     prev = EMPTY
     nchange = nerr = 0
+    seen_streams = {}
     inp = {"missing": case.get("missing", []), "cmds": case["cmds"]}
     for i, (cmd, rec) in enumerate(zip(case["cmds"], steps)):
         m = msteps[i] if msteps and i < len(msteps) else None
@@ -209,12 +214,19 @@ def check_case(ctx, case, steps, msteps):
             nchange += 1
         if rec["out"] != "ok":
             nerr += 1
+        if cmd["op"] in ("undeclare", "remove") and rec["out"] == "ok" and not cmd.get("noaction"):
+            gone = {tuple(d[:4]) for d in prev["decls"]} - {tuple(d[:4]) for d in real["decls"]}
+            if any((t[0], t[2], t[4], t[3]) in gone and not t[1].replace("_", "a").isalnum() for t in prev["tags"]):
+                ctx.hist("undeclared or removed a version carrying a tag with non-word characters")
         # ---- oracle (i) ---------------------------------------------------------------------------
         oracle_i(ctx, i, sub, rec, impl_obs, model_obs)
         # ---- oracle (ii): state clauses ------------------------------------------------------------
         dt = dangling_tags(real)
         if dt:
             ctx.fail("no_dangling_tag", sub, impl_obs, model_obs, note="tags on undeclared versions: %s" % dt)
+        dtf = dangling_tags(rec["files"]) if isinstance(rec.get("files"), dict) else None
+        if dtf and not dt:
+            ctx.fail("no_dangling_tag/files", sub, impl_obs, model_obs, note="chain files naming undeclared versions (raw parse of ups_db): %s" % dtf)
         dk = duplicate_keys(real)
         if dk:
             ctx.fail("unique_keys", sub, impl_obs, model_obs, note="duplicate keys: %s" % dk)
@@ -256,6 +268,36 @@ def check_case(ctx, case, steps, msteps):
         elif rec["out"] == "ok" and not cmd.get("noaction") and cmd["op"] in ("declare", "assignTag") and \
                 (cmd.get("tag") or cmd["op"] == "assignTag"):
             ctx.hist("tag-moved")
+        # ---- oracle (ii): an interned table holds the bytes it was declared with -------------------------
+        if "extras" in rec:
+            on_disk = {(x[0], x[2], x[3], x[1]): x[5] for x in rec["extras"] if x[4] == "ups/%s.table" % x[2]}
+            for d in real["decls"]:
+                if d[5] != "interned":
+                    continue
+                key = (d[0], d[1], d[2], d[3])
+                if key not in ref.decl or ref.decl[key][1] != "interned":
+                    continue
+                have, implied = on_disk.get(key), ref.table_content(key)
+                if have != implied:
+                    st = cmd.get("table")
+                    cls = "D39" if (cmd["op"] == "declare" and st and st[0] == "stream" and not cmd.get("force") and
+                                    key in {(p[0], p[1], p[2], p[3]) for p in prev["decls"]}) else None
+                    ctx.fail("history_implies/interned_table_content", sub, dict(impl_obs, content_on_disk=have),
+                             None if model_obs is None else dict(model_obs, content_on_disk=have), finding=cls,
+                             note="%s: the interned table holds content %s, the history implies %s" % (list(key), have, implied))
+                    ref.load_extras(rec["extras"])
+            t = cmd.get("table")
+            if cmd["op"] == "declare" and rec["out"] == "ok" and t and t[0] == "stream" and not cmd.get("noaction"):
+                k2 = None
+                for d in real["decls"]:
+                    if d[1] == cmd["name"] and d[2] == cmd["version"] and d[3] == cmd.get("flavor", "Linux") and d[5] == "interned":
+                        k2 = (d[0], d[1], d[2], d[3])
+                if k2 is not None:
+                    was = seen_streams.get(k2)
+                    if was is not None and was != t[1]:
+                        ctx.hist("stream over a table interned before with other content/%s" %
+                                 ("forced" if cmd.get("force") else "after undeclare"))
+                    seen_streams[k2] = t[1]
         prev = real
     nontrivial = nchange >= 3 and nerr >= 1
     ctx.case(key=inp, nontrivial=nontrivial,
@@ -335,6 +377,13 @@ def run(ctx):
         done += k
     if ctx.evaluations and ctx.distinct_nontrivial < ctx.evaluations * 0.3:
         raise common.InfraError("degenerate distribution: %d non-trivial of %d" % (ctx.distinct_nontrivial, ctx.evaluations))
+    if ctx.evaluations > 60 and not (ctx.disagreements or any(not f.get("finding_class") for f in ctx.failures)):
+        floors = {"stream over a table interned before with other content/after undeclare": 5,
+                  "stream over a table interned before with other content/forced": 5,
+                  "undeclared or removed a version carrying a tag with non-word characters": 5}
+        low = {k: ctx.histogram.get(k, 0) for k, v in floors.items() if ctx.histogram.get(k, 0) < v}
+        if low:
+            raise common.InfraError("degenerate distribution: %s in %d histories" % (low, ctx.evaluations))
     if ctx.tier == "thorough":
         exhaustive(ctx)
     shrink_failures(ctx)
